@@ -42,6 +42,11 @@ type Op struct {
 	// Fault injected during the op: "" | get | tp | put<k> | send<k>
 	// (state read fails | transitional payload write fails | k-th state write fails | k-th messenger call fails)
 	Fault string `json:"fault,omitempty"`
+	// wire identifiers of a msg (default: a unique id and thid = the name of thread T):
+	// IDT: 0 = unique id, -1 = no id, k>0 = the id IS the name of thread k;  NoTh: no thid;  Pth: k>0 = pthid names thread k
+	IDT  int  `json:"idt,omitempty"`
+	NoTh bool `json:"noth,omitempty"`
+	Pth  int  `json:"pth,omitempty"`
 }
 
 // Case is a history for one protocol.
@@ -59,8 +64,14 @@ type Obs struct {
 	Pre    string   `json:"pre"`
 	Post   string   `json:"post"`
 	Thread int      `json:"thread"`
-	Err    string   `json:"err,omitempty"`
-	Tape   []string `json:"tape,omitempty"`
+	// Key is the identifier of the protocol instance the op works on ("" = none: the message must be refused)
+	Key string `json:"key"`
+	// wire identifiers of the message as sent, and the other state keys written during the op
+	WireID, WireTh, WirePth string
+	Fresh                   string
+	Written                 []string `json:"written,omitempty"`
+	Err                     string   `json:"err,omitempty"`
+	Tape                    []string `json:"tape,omitempty"`
 	// FiredAt: index (within the op) of the executed state whose network action failed (-1: no send failed)
 	FiredAt int `json:"fired_at"`
 }
@@ -140,7 +151,9 @@ type world struct {
 	actions  chan service.DIDCommAction
 	events   chan service.StateMsg
 	pending  []service.DIDCommAction
-	evThread []int
+	evThread []string
+	written  []string
+	seenPIID []string
 	evMsg    []string
 	live     []bool
 	stale    []bool
@@ -171,12 +184,17 @@ func newWorld(proto string, v3 bool) *world {
 		case c.Op == "Get" && state && w.failGet:
 			return hx.ErrInjected
 		case c.Op == "Put" && state:
+			w.written = append(w.written, strings.TrimPrefix(strings.TrimPrefix(c.Key, "state_name_"), "internal_data_"))
 			w.nPut++
 			if w.nPut-1 == w.failPut {
 				return hx.ErrInjected
 			}
-		case c.Op == "Put" && strings.HasPrefix(c.Key, "transitionalPayload_") && w.failTP:
-			return hx.ErrInjected
+		case c.Op == "Put" && strings.HasPrefix(c.Key, "transitionalPayload_"):
+			w.seenPIID = append(w.seenPIID, strings.TrimPrefix(c.Key, "transitionalPayload_"))
+
+			if w.failTP {
+				return hx.ErrInjected
+			}
 		}
 
 		return nil
@@ -309,6 +327,26 @@ func (w *world) message(op Op) service.DIDCommMsgMap {
 	return m
 }
 
+// wireIDs gives the identifiers the message of an op carries ("" = absent).
+func (w *world) wireIDs(op Op) (id, th, pth string) {
+	switch {
+	case op.IDT == 0:
+		id = fmt.Sprintf("m-%d", w.seq)
+	case op.IDT > 0:
+		id = thName(op.IDT)
+	}
+
+	if !op.NoTh {
+		th = thName(op.T)
+	}
+
+	if op.Pth > 0 {
+		pth = thName(op.Pth)
+	}
+
+	return id, th, pth
+}
+
 func (w *world) rawMessage(op Op) service.DIDCommMsgMap {
 	w.seq++
 	vi := 0
@@ -318,7 +356,7 @@ func (w *world) rawMessage(op Op) service.DIDCommMsgMap {
 	}
 
 	typ := w.msgTypes[op.Msg][vi]
-	id := fmt.Sprintf("m-%d", w.seq)
+	id, th, pth := w.wireIDs(op)
 
 	if w.v3 && w.proto != "intro" {
 		body := map[string]interface{}{}
@@ -326,10 +364,40 @@ func (w *world) rawMessage(op Op) service.DIDCommMsgMap {
 			body["will_confirm"] = true
 		}
 
-		return service.DIDCommMsgMap{"id": id, "type": typ, "thid": thName(op.T), "body": body}
+		m := service.DIDCommMsgMap{"type": typ, "body": body}
+		if id != "" {
+			m["id"] = id
+		}
+
+		if th != "" {
+			m["thid"] = th
+		}
+
+		if pth != "" {
+			m["pthid"] = pth
+		}
+
+		return m
 	}
 
-	m := service.DIDCommMsgMap{"@id": id, "@type": typ, "~thread": map[string]interface{}{"thid": thName(op.T)}}
+	m := service.DIDCommMsgMap{"@type": typ}
+	if id != "" {
+		m["@id"] = id
+	}
+
+	thread := map[string]interface{}{}
+	if th != "" {
+		thread["thid"] = th
+	}
+
+	if pth != "" {
+		thread["pthid"] = pth
+	}
+
+	if len(thread) > 0 {
+		m["~thread"] = thread
+	}
+
 	if op.Flag {
 		m["will_confirm"] = true
 	}
@@ -341,14 +409,56 @@ func (w *world) rawMessage(op Op) service.DIDCommMsgMap {
 	return m
 }
 
-func (w *world) persisted(t int) string {
+// specKey is the harness' copy of the published rule (coq/C09/Spec.v: *_resolve_spec; the generated rule of the code
+// is proved equal to it in Coq): which identifier names the protocol instance.  ok=false: the message is refused.
+// fresh=true: none, the service generates one.
+func specKey(proto, msg string, out bool, id, th, pth string) (key string, fresh, ok bool) {
+	rule := func() (string, bool, bool) {
+		switch {
+		case th != "" && id == "":
+			return "", false, false
+		case th != "":
+			return th, false, true
+		case id != "":
+			return id, false, true
+		}
+
+		return "", true, true
+	}
+
+	switch proto {
+	case "ic":
+		if pth != "" {
+			return pth, false, true
+		}
+	case "pp":
+		if pth != "" && msg == "problem-report" {
+			return pth, false, true
+		}
+	case "intro":
+		if k, f, o := rule(); !out && (!o || f) {
+			_ = k
+			return "", false, false
+		}
+
+		if pth != "" {
+			return pth, false, true
+		}
+	}
+
+	return rule()
+}
+
+func (w *world) persisted(t int) string { return w.persistedKey(thName(t)) }
+
+func (w *world) persistedKey(k string) string {
 	var key string
 
 	switch w.proto {
 	case "pp":
-		key = "internal_data_" + thName(t)
+		key = "internal_data_" + k
 	default:
-		key = "state_name_" + thName(t)
+		key = "state_name_" + k
 	}
 
 	b, err := w.store.Get(key)
@@ -399,7 +509,7 @@ func (w *world) drain() (ann []string, bad string) {
 	return ann, bad
 }
 
-func (w *world) drainActions(t int, msg string) int {
+func (w *world) drainActions(t string, msg string) int {
 	n := 0
 
 	for {
@@ -422,7 +532,7 @@ func (w *world) drainActions(t int, msg string) int {
 	return n
 }
 
-func (w *world) hasLive(t int) bool {
+func (w *world) hasLive(t string) bool {
 	for i := range w.pending {
 		if w.live[i] && w.evThread[i] == t {
 			return true
@@ -459,10 +569,20 @@ func (w *world) apply(op Op) (o Obs, staleEvent bool, bad string) {
 
 	switch op.Kind {
 	case "msg":
-		o.Thread = op.T
-		o.Pre = w.persisted(op.T)
-		hadLive := w.hasLive(op.T)
+		w.written, w.seenPIID = nil, nil
 		m := w.message(op)
+		o.WireID, o.WireTh, o.WirePth = w.wireIDs(op)
+		key, fresh, named := specKey(w.proto, op.Msg, op.Out, o.WireID, o.WireTh, o.WirePth)
+		o.Thread = op.T
+
+		if named && !fresh {
+			o.Key = key
+			o.Pre = w.persistedKey(key)
+		} else {
+			o.Pre = "start"
+		}
+
+		hadLive := o.Key != "" && w.hasLive(o.Key)
 
 		var err error
 		if op.Out {
@@ -471,11 +591,21 @@ func (w *world) apply(op Op) (o Obs, staleEvent bool, bad string) {
 			err = w.inbound(m)
 		}
 
-		n := w.drainActions(op.T, op.Msg)
+		if named && fresh {
+			// the identifier the service generated shows in the keys it wrote
+			for _, k := range append(append([]string{}, w.written...), w.seenPIID...) {
+				if !strings.HasPrefix(k, "th-") && !strings.HasPrefix(k, "m-") {
+					o.Key, o.Fresh = k, k
+				}
+			}
+		}
+
+		n := w.drainActions(o.Key, op.Msg)
 
 		switch {
 		case err != nil && (strings.HasPrefix(err.Error(), "doHandle:") || strings.HasPrefix(err.Error(), "buildMetaData:") ||
-			strings.HasPrefix(err.Error(), "save transitional payload")):
+			strings.HasPrefix(err.Error(), "populate metadata:") || strings.HasPrefix(err.Error(), "save transitional payload") ||
+			strings.HasPrefix(err.Error(), "failed to obtain the message's threadID")):
 			o.Res = "reject"
 		case err != nil:
 			o.Res = "err"
@@ -492,7 +622,7 @@ func (w *world) apply(op Op) (o Obs, staleEvent bool, bad string) {
 		if o.Res != "reject" && hadLive {
 			// accepted while an action event of the thread was open: every open event of the thread is stale now
 			for i := range w.pending {
-				if w.live[i] && w.evThread[i] == op.T {
+				if w.live[i] && w.evThread[i] == o.Key {
 					w.stale[i] = true
 				}
 			}
@@ -506,9 +636,10 @@ func (w *world) apply(op Op) (o Obs, staleEvent bool, bad string) {
 			return o, false, ""
 		}
 
+		w.written, w.seenPIID = nil, nil
 		t := w.evThread[op.Ev]
-		o.Thread = t
-		o.Pre = w.persisted(t)
+		o.Key = t
+		o.Pre = w.persistedKey(t)
 		staleEvent = w.stale[op.Ev]
 		w.live[op.Ev] = false
 
@@ -524,7 +655,18 @@ func (w *world) apply(op Op) (o Obs, staleEvent bool, bad string) {
 	}
 
 	o.Ann, bad = w.drain()
-	o.Post = w.persisted(o.Thread)
+
+	if o.Key != "" {
+		o.Post = w.persistedKey(o.Key)
+	} else {
+		o.Post = o.Pre
+	}
+
+	for _, k := range w.written {
+		if k != o.Key {
+			o.Written = append(o.Written, k)
+		}
+	}
 
 	return o, staleEvent, bad
 }
@@ -547,6 +689,11 @@ func judge(proto string, op Op, o Obs, stale bool, bad string) verdict {
 	kind, detail := "", ""
 
 	switch {
+	case op.Kind == "msg" && o.Key == "" && o.Fresh == "" && o.Res != "reject" && !specNamed(proto, op, o):
+		kind, detail = "accepted-malformed", fmt.Sprintf("%s with id=%q thid=%q pthid=%q names no protocol instance but was not refused (%s)",
+			op.Msg, o.WireID, o.WireTh, o.WirePth, o.Res)
+	case len(o.Written) > 0:
+		kind, detail = "wrong-thread-written", fmt.Sprintf("the op works on instance %q but the state of %v was written", o.Key, o.Written)
 	case bad != "":
 		kind, detail = "events", bad
 	case o.Res == "reject" && (len(o.Ann) != 0 || o.Post != o.Pre):
@@ -606,6 +753,11 @@ func judge(proto string, op Op, o Obs, stale bool, bad string) verdict {
 	}
 
 	return verdict{fail: true, sig: proto + ":" + kind, detail: detail}
+}
+
+func specNamed(proto string, op Op, o Obs) bool {
+	_, _, ok := specKey(proto, op.Msg, op.Out, o.WireID, o.WireTh, o.WirePth)
+	return ok
 }
 
 // ---------- Coq printing ----------
@@ -676,8 +828,41 @@ func coqRes(r string) string {
 	return map[string]string{"reject": "RReject", "action": "RAction", "ok": "ROk", "err": "RErr", "noevent": "RNoEvent"}[r]
 }
 
+// threadNo numbers the instance identifiers of a case: th-k -> k, anything else 1000, 1001, ... in order of appearance.
+type threadNo struct{ m map[string]int }
+
+func (t *threadNo) of(k string) int {
+	if k == "" {
+		return 0
+	}
+
+	if strings.HasPrefix(k, "th-") {
+		n, _ := strconv.Atoi(k[3:])
+		return n
+	}
+
+	if t.m == nil {
+		t.m = map[string]int{}
+	}
+
+	if _, ok := t.m[k]; !ok {
+		t.m[k] = 1000 + len(t.m)
+	}
+
+	return t.m[k]
+}
+
+func (t *threadNo) opt(k string) string {
+	if k == "" {
+		return "None"
+	}
+
+	return fmt.Sprintf("(Some %d)", t.of(k))
+}
+
 func coqCase(c *Case, obs []Obs) string {
 	n := numberings[c.Proto]
+	tn := &threadNo{}
 
 	var ops, os []string
 
@@ -686,8 +871,14 @@ func coqCase(c *Case, obs []Obs) string {
 
 		switch op.Kind {
 		case "msg":
-			ops = append(ops, fmt.Sprintf("Msg %s %d %s %s %d %s %s", hx.CoqBool(op.Out), c09tab.Index(c09tab.Msgs[c.Proto], op.Msg),
-				hx.CoqBool(c.V3), hx.CoqBool(op.Flag), op.T, coqFault(op, obs[i]), tape))
+			fresh := 999999
+			if obs[i].Fresh != "" {
+				fresh = tn.of(obs[i].Fresh)
+			}
+
+			ops = append(ops, fmt.Sprintf("Wire %s %d %s %s %s %s %s %d %s %s", hx.CoqBool(op.Out), c09tab.Index(c09tab.Msgs[c.Proto], op.Msg),
+				hx.CoqBool(c.V3), hx.CoqBool(op.Flag), tn.opt(obs[i].WireID), tn.opt(obs[i].WireTh), tn.opt(obs[i].WirePth), fresh,
+				coqFault(op, obs[i]), tape))
 		case "continue":
 			ops = append(ops, fmt.Sprintf("Continue %d%%nat %d %s %s", op.Ev, c09tab.Index(c09tab.Opts[c.Proto], op.Opt),
 				coqFault(op, obs[i]), tape))
@@ -822,7 +1013,7 @@ func runCase(tr *hx.Trace, kind string, c *Case, withCoq bool) (key string, last
 
 	for i := range w.pending {
 		if w.live[i] {
-			ks = append(ks, fmt.Sprintf("e%d:%s", w.evThread[i], w.evMsg[i]))
+			ks = append(ks, fmt.Sprintf("e%s:%s", w.evThread[i], w.evMsg[i]))
 		}
 	}
 
@@ -909,8 +1100,36 @@ func faultsFor(proto string, op Op, res string) []string {
 	}
 }
 
+// wireVariants lists the other shapes of identifiers the message of op could carry.
+func wireVariants(op Op) []Op {
+	other := 3 - op.T
+	if other < 1 {
+		other = 1
+	}
+
+	mk := func(f func(o *Op)) Op {
+		o := op
+		f(&o)
+
+		return o
+	}
+
+	return []Op{
+		mk(func(o *Op) { o.NoTh = true }),                        // a new instance named by the message's own id
+		mk(func(o *Op) { o.IDT = -1 }),                           // thid without id (invalid message)
+		mk(func(o *Op) { o.IDT, o.NoTh = -1, true }),             // no identifier at all
+		mk(func(o *Op) { o.IDT = o.T }),                          // id equal to thid
+		mk(func(o *Op) { o.Pth = o.T }),                          // pthid naming the same instance
+		mk(func(o *Op) { o.Pth = other }),                        // pthid naming another existing instance
+		mk(func(o *Op) { o.Pth, o.NoTh = other, true }),          // pthid of another instance, no thid
+		mk(func(o *Op) { o.Pth, o.T = o.T, 3 }),                  // never-seen thid, pthid naming an existing instance
+		mk(func(o *Op) { o.Pth, o.T, o.IDT = o.T, 3, -1 }),       // the same without id
+		mk(func(o *Op) { o.IDT, o.NoTh, o.Pth = -1, true, o.T }), // only a pthid
+	}
+}
+
 func explore(tr *hx.Trace, proto string, v3 bool, depth, threads, twoUntil, faultDepth, coqBudget int) {
-	coqFault2 := 0
+	coqFault2, coqWire, wireDepth := 0, 0, 2
 	seen := map[string]bool{"": true}
 	frontier := []node{{}}
 	coqUsed := 0
@@ -928,6 +1147,29 @@ func explore(tr *hx.Trace, proto string, v3 bool, depth, threads, twoUntil, faul
 				c := &Case{Proto: proto, V3: v3, Ops: append(append([]Op{}, nd.ops...), op)}
 				key, res := runCase(tr, "exhaustive", c, coqUsed < coqBudget)
 				coqUsed++
+
+				// every shape of wire identifiers for this message (from this reached state): id present / absent / equal to
+				// a thread name, thid present / absent / naming a never-seen thread, pthid absent / naming the same / another
+				// existing instance; these histories are not expanded
+				if d < wireDepth && op.Kind == "msg" {
+					for _, wo := range wireVariants(op) {
+						if proto == "intro" && wo.Out && wo.IDT == -1 {
+							// introduce: an outbound message without id gets its fresh id on a copy only; what then happens
+							// depends on the message type (a response is refused by saveResponse): not modelled
+							continue
+						}
+
+						if proto == "intro" && !wo.NoTh && wo.Pth > 0 {
+							// introduce: the instance id stored with the THREAD's metadata takes precedence over a pthid
+							// (state-dependent, not modelled): pthid and thid are not combined
+							continue
+						}
+
+						wc := &Case{Proto: proto, V3: v3, Ops: append(append([]Op{}, nd.ops...), wo)}
+						runCase(tr, "exhaustive-wire", wc, coqWire < coqBudget)
+						coqWire++
+					}
+				}
 
 				// every fault kind on this op (from this reached state); faulted histories are not expanded
 				if d < faultDepth && res != "reject" && res != "noevent" {
@@ -990,6 +1232,13 @@ func randomCase(rng *hx.Rng, proto string, v3 bool, maxLen int) *Case {
 
 			if proto == "intro" && op.Msg == "request" && !op.Out && introRequestSeen(c.Ops, op.T) {
 				op.Msg = "response"
+			}
+
+			if rng.Intn(4) == 0 {
+				vs := wireVariants(op)
+				if wo := vs[rng.Intn(len(vs))]; !(proto == "intro" && (!wo.NoTh && wo.Pth > 0 || wo.Out && wo.IDT == -1)) {
+					op = wo
+				}
 			}
 
 			c.Ops = append(c.Ops, op)
